@@ -115,6 +115,14 @@ def gen_pair(rng):
         s1 = np.column_stack([1.7e9 + rng.integers(0, 600, n1)] + [rng.normal(size=n1) for _ in range(d - 1)]).astype(float)
         s2 = np.column_stack([1.7e9 + rng.integers(0, 600, n2)] + [rng.normal(size=n2) for _ in range(d - 1)]).astype(float)
         lattice = "timestamps"
+    narrow = None
+    if lattice is True and rng.random() < 0.3:
+        # lattice points held in a narrow signed integer dtype and spread over most of its range
+        narrow = str(rng.choice(["int8", "int16", "int32"]))
+        top = {"int8": 120, "int16": 32000, "int32": 2.1e9}[narrow]
+        s1 = np.round((s1 / 3.0 * 2 - 1) * top).astype(float)
+        s2 = np.round((s2 / 3.0 * 2 - 1) * top).astype(float)
+        lattice = "narrow:" + narrow
     cross = False
     if rng.random() < 0.35:
         m = max(1, min(n1, n2) // 2)
@@ -143,7 +151,11 @@ def run_pair(case, ctx):
     if s1.shape[1] >= 16:
         ctx.count("pairs_with_16plus_columns")
     p = NNSpacePartitioner(k)
-    p.build(s1.copy(), s2.copy())
+    if isinstance(lattice, str) and lattice.startswith("narrow:"):
+        ctx.count("pairs_in_narrow_integer_dtypes")
+        p.build(s1.astype(lattice[7:]), s2.astype(lattice[7:]))
+    else:
+        p.build(s1.copy(), s2.copy())
     if "literal" not in case and case["seed"][-1] % 3 == 0:
         # another partitioner built on other samples before this one is read: objects must not share anything
         NNSpacePartitioner(1).build(s2[::-1] * 2.0 + 1.0, s1[:1] - 3.0)
@@ -218,7 +230,7 @@ def run_nndvi(case, ctx):
         d = int(rng.integers(1, 4))
         batches = gen.batch_sequence(rng, int(rng.integers(6, 16)), d, size=(6, 34), shift_p=0.4, dup_p=0.3, integer_p=0.25)
         # k from 1 up to well beyond the size of a single test batch (the neighbourhood is taken over the pooled points)
-        kw = dict(k_nn=int(rng.choice([1, 2, 3, 5, 8, 12, 20, 30])), sampling_times=int(rng.choice([10, 20, 40])), alpha=float(rng.choice([0.01, 0.05, 0.2, 0.4])))
+        kw = dict(k_nn=int(rng.choice([1, 2, 3, 5, 8, 12, 20, 30])), sampling_times=int(rng.choice([10, 10, 20, 20, 40, 40, 130, 250])), alpha=float(rng.choice([0.01, 0.05, 0.2, 0.4])))
         r = rng.random()
         if r < 0.12:
             # the reference arrives as whole numbers with an integer dtype, later batches as floats
